@@ -57,7 +57,7 @@ def gen(rng, tier):
         ops = set(common.PAST_OPS) | ({'eventually_b', 'always_b', 'until_b', 'unless_b', 'next'} if future else set())
     for _ in range(200):
         ast = sg.gen_formula(rng, sg.GenCfg(vars=vars_, ops=ops, max_depth=rng.randint(2, 4), max_bound=rng.choice([2, 4]),
-                                            p_loose=0.03, allow_const_only=rng.random() < 0.1))
+                                            p_loose=rng.choice([0.03, 0.03, 0.3]), allow_const_only=rng.random() < 0.1))
         if any(x[0] == 'pred' for x in sg.walk(ast)) and sg.vars_of(ast) and not common.f08_blind(ast):
             break
     io = dict((v, rng.choice(['input', 'output', None])) for v in vars_)
